@@ -714,6 +714,7 @@ def _hang_guard(seconds=120):
     import signal
 
     def boom(*a):
+        signal.alarm(2)  # an exception raised inside a gc / destructor callback is swallowed: keep trying
         raise core.HarnessError("a generated case ran for more than %d s" % seconds)
 
     signal.signal(signal.SIGALRM, boom)
